@@ -81,7 +81,7 @@ class WF:
 
         self.loop.run_until_complete(boot())
 
-    def tx(self, fn):
+    def tx(self, fn, commit=False):
         from stepup.core import sqlite3 as su_sqlite3
 
         from asyncio import events
@@ -91,9 +91,13 @@ class WF:
         events._set_running_loop(self.loop)
         db._con.execute("BEGIN")
         try:
-            return fn()
+            res = fn()
+            if commit:
+                db._con.commit()
+            return res
         finally:
-            db._con.rollback()
+            if db._con.in_transaction:
+                db._con.rollback()
             db._held = None
             events._set_running_loop(None)
 
@@ -309,19 +313,42 @@ def site_justified(w, labs, ds, acc):
 
 
 def site_clean(w, labs, ds, acc):
+    """`stepup clean DIR`: the selection runs on the connection the tool itself opens
+    (tool.connect_graph_db: read-only), on a committed copy of the database."""
+    import shutil
+
     from path import Path
     from stepup.core import clean as su_clean
+    from stepup.core import tool as su_tool
 
     def run():
         plan = w.plan()
         w.wf.declare_static_files(plan, [x for x in labs if x != "plan.py"])
+        # the same selection inside the director's own (read-write) session
         return {d: su_clean.search_matching_paths(w.db._con, {Path(d[:-1])}) for d in ds}
 
-    res = w.tx(run)
-    for d in ds:
-        got = {x for x in res[d] if x != "plan.py"}
-        got_under = {x for x in got if x != d[:-1]}
-        compare(acc, "clean.search_matching_paths", d, [x for x in labs if x != d[:-1]], got_under)
+    res_rw = w.tx(run, commit=True)
+    w.db._con.execute("PRAGMA wal_checkpoint(TRUNCATE)")
+    os.makedirs(os.path.join(w.dir, ".stepup"), exist_ok=True)
+    shutil.copyfile(os.path.join(w.dir, "graph.db"), os.path.join(w.dir, ".stepup", "graph.db"))
+    saved = os.environ.get("STEPUP_ROOT")
+    os.environ["STEPUP_ROOT"] = w.dir
+    try:
+        con = su_tool.connect_graph_db()
+        try:
+            res_ro = {d: su_clean.search_matching_paths(con, {Path(d[:-1])}) for d in ds}
+        finally:
+            con.close()
+    finally:
+        if saved is None:
+            os.environ.pop("STEPUP_ROOT", None)
+        else:
+            os.environ["STEPUP_ROOT"] = saved
+    for site, res in (("clean.search_matching_paths", res_rw), ("clean.search_matching_paths[tool connection]", res_ro)):
+        for d in ds:
+            got = {x for x in res[d] if x != "plan.py"}
+            got_under = {x for x in got if x != d[:-1]}
+            compare(acc, site, d, [x for x in labs if x != d[:-1]], got_under)
 
 
 def compare(acc, site, d, labs, got):
